@@ -250,7 +250,7 @@ def _fs_copy(ex, st, args, dest_ty, func, where):
     return io_result(ex, ok, VInt(ex.fresh_int("copied", ty="u64"), "u64"))
 
 
-OO_FLAGS = ("create", "truncate", "write", "read", "append")
+OO_FLAGS = ("create", "truncate", "write", "read", "append", "create_new")
 
 
 def _file_open(call):
@@ -258,7 +258,7 @@ def _file_open(call):
         ok = ex.fresh_bool(call + "_ok")
         p = path_term(ex, st, args[-1])
         flags = {"create": z3.BoolVal(call == "create"), "truncate": z3.BoolVal(call == "create"), "write": z3.BoolVal(call == "create"),
-                 "read": z3.BoolVal(call == "open"), "append": z3.BoolVal(False)}
+                 "read": z3.BoolVal(call == "open"), "append": z3.BoolVal(False), "create_new": z3.BoolVal(False)}
         if call == "open-options":
             oo = _deep(ex, st, args[0])
             if isinstance(oo, VStruct) and oo.name == "OpenOptions" and len(oo.f) == len(OO_FLAGS):
@@ -448,7 +448,8 @@ def install(ex):
     A(r"^std::fs::File::create::<", _file_open("create"), "File::create (recorded)")
     A(r"^std::fs::File::open::<", _file_open("open"), "File::open (recorded)")
     A(r"^std::fs::OpenOptions::new$", _oo_new, "OpenOptions::new")
-    A(r"^std::fs::OpenOptions::(create|truncate|write|read|append)$", _oo_set, "OpenOptions setters")
+    A(r"^(std|tokio)::fs::OpenOptions::(create|truncate|write|read|append|create_new)$", _oo_set, "OpenOptions setters")
+    A(r"^tokio::fs::OpenOptions::new$", _oo_new, "tokio OpenOptions::new")
     A(r"^std::fs::OpenOptions::open::<", _file_open("open-options"), "OpenOptions::open (recorded)")
     A(r"^std::fs::File::sync_all$", _file_call("sync_all"), "File::sync_all (recorded)")
     A(r"^<std::fs::File as fs2::FileExt>::lock_exclusive$", _file_call("lock"), "fs2 lock_exclusive (recorded)")
